@@ -8,7 +8,7 @@ use crate::spec;
 pub fn generate(seed: u64, tier: &str, sink: &mut Sink) {
     let thorough = tier == "thorough";
     // "every request": also the ones sent while following redirects (peer, target form and Host of each hop)
-    crate::p_c09::generate_chains(seed ^ 0xC08C, if thorough { 3000 } else { 250 }, true, sink);
+    crate::p_c09::generate_chains(seed ^ 0xC08C, if thorough { 3000 } else { 250 }, true, false, sink);
     let mut tunnel_seen = 0usize;
     let schemes = ["http", "https"];
     // (as written, host_str expected, is_domain)
@@ -70,6 +70,7 @@ pub fn generate(seed: u64, tier: &str, sink: &mut Sink) {
                                         body: BodyR::Empty,
                                         post: vec![],
                                         hops: vec![(vec![Seg::Data(OK_RESPONSE.to_vec())], None)],
+                                        plain_tunnel: false,
                                     };
                                     let obs = run_send(&case);
                                     let default_port = if sc == "http" { 80 } else { 443 };
